@@ -297,6 +297,7 @@ class StoreModel:
             if name == "store_stage":
                 _note_version(I, a[1], eff)
             if name in ("store_stage",) and I.st.choose("concurrency_error"):
+                eff.data["failed"] = True  # this write lost the compare-and-swap: nothing was stored
                 raise_exc(I, "ConcurrencyError", "stabilize.errors")
             if name == "store_stage" and isinstance(a[1], SObj):
                 ver = I.getattr(a[1], "version")
